@@ -499,6 +499,11 @@ impl Check for C15 {
         if r.chance(0.012) {
             // a size knob: a per-edge table of a megabyte or more (a loader may treat large files differently)
             params["big_table"] = json!({"rows": r.range(150_000, 420_000), "seed": r.next_u64() >> 12});
+            // (loaded inside a pool of three simulated workers: schedule them for real)
+            simcfg.sched = sim::SchedMode::Random;
+            simcfg.p_stay = *r.pick(&[0.5, 0.9]);
+            simcfg.alloc_every = *r.pick(&[1u64, 8, 64]);
+            simcfg.max_steps = 3_000_000;
         }
         Case { check: "C15".into(), seed, family: family.to_string(), world: w, batches: vec![], workers: 1, run_parallelism: None, simcfg, recorded: None, params }
     }
@@ -547,9 +552,12 @@ impl Check for C15 {
                 };
                 let bytes = data.len();
                 sim::with(|s| s.put_file(path, data));
+                // (inside a simulated pool: a loader that hands rows to worker threads is scheduled by the simulator)
+                let pool = crate::harness::make_pool(3);
                 sim::set_quiet(false);
-                let big = SpeedTraversalEngine::new(&path, SpeedUnit::KilometersPerHour, None, None);
+                let big = pool.install(|| SpeedTraversalEngine::new(&path, SpeedUnit::KilometersPerHour, None, None));
                 sim::set_quiet(true);
+                drop(pool);
                 res["bigspeeds"] = match &big {
                     Ok(e) => {
                         let got: Vec<f64> = e.speed_table.iter().map(|s| s.as_f64()).collect();
